@@ -232,6 +232,25 @@ def check_C04(tier, seed):
         elif "C04.ok" in v and pr.get("pruned", 0) > 0 and o["exec"]["rows"]:
             res.sample(brief(inst, {"rows": len(o["exec"]["rows"]), "vertices_discarded_by_hints": pr["pruned"], "hints_consulted": {k: pr[k] for k in ("static", "mandatory", "dynamic")}}), cap=3)
     res.notes["hints_consulted"] = stats
+    # per hint, independent of the data: a statically derived candidate contains every value of a probe universe that satisfies the static filters
+    ji, jo = [], []
+    for inst, o in zip(insts, obs):
+        hs = [{"vid": h["vid"], "prop": h["prop"], "cand": h["cand"]} for h in o.get("prune", {}).get("hints", []) if h.get("kind") == "static" and h["cand"].get("t") != "unknown"]
+        seen_h = set(); uniq = []
+        for h in hs:
+            k = json.dumps(h, sort_keys=True)
+            if k not in seen_h: seen_h.add(k); uniq.append(h)
+        if uniq and "ir" in o and '"float"' not in json.dumps(o.get("args", {})):
+            ji.append({"id": inst["id"], "g": inst["g"]}); jo.append({"id": inst["id"], "ir": o["ir"], "args": o.get("args", {}), "hints": uniq})
+    hv = judge(res, "JudgeHints", ji, jo, wd, "hints") if ji else {}
+    byid = {i["id"]: i for i in insts}; nh = 0
+    for x, o in zip(ji, jo):
+        nh += len(o["hints"]); v = hv[x["id"]]
+        if "hint.unsound" in v:
+            d = json.loads(tla_unquote(v["hint.unsound"])); inst = byid[x["id"]]
+            res.violation(f"the statically required candidate {d['hint']['cand']} reported for property {d['hint']['prop']!r} of vertex {d['hint']['vid']} excludes the value {G.pretty(d['excluded'])}, which satisfies every static filter on that property, in query {inst['text']!r} args {{{', '.join(k + '=' + G.pretty(a) for k, a in o['args'].items())}}}",
+                          text="static-hint-unsound", tags=props.inst_tags(inst), replay=props.replay_case(inst, None, hint=d["hint"], excluded=d["excluded"], args=o["args"]))
+    res.notes["static_hints_judged_for_soundness"] = nh
     return res
 
 # ------------------------------------------------------------------ C05 / C21
